@@ -329,3 +329,870 @@ Proof.
   intros H r Hin. destruct (in_pending_item _ _ Hin) as (it & Hit & E). rewrite Forall_forall in H.
   destruct (icond_root_own _ _ _ _ (H it Hit) E); auto.
 Qed.
+
+(* ---- the step preserves the invariant ------------------------------------------------------- *)
+Ltac updsimp :=
+  repeat match goal with
+  | |- context [upd _ ?i _ ?i] => rewrite upd_eq
+  | |- context [upd _ ?i _ ?j] => rewrite (upd_neq _ i _ j) by (try lia; try congruence; auto)
+  | H : context [upd _ ?i _ ?i] |- _ => rewrite upd_eq in H
+  | H : context [upd _ ?i _ ?j] |- _ => rewrite (upd_neq _ i _ j) in H by (try lia; try congruence; auto)
+  end.
+
+Lemma linked_small s t k c : Forall (icond s t) k -> linked s c (pending_roots k) ->
+  forall s', (forall r, r < nroots s -> r_next (roots s' r) = r_next (roots s r)) -> linked s' c (pending_roots k).
+Proof.
+  intros HF HL s' H. eapply linked_ext; [|exact HL]. intros r Hin. apply H. eapply tail_roots_small; eauto.
+Qed.
+
+Lemma step_obs s t tag k :
+  GI s -> t < nthreads s -> conts s t = Do (AObs tag) :: k -> GI (set_conts s t k).
+Proof.
+  intros G Ht Hc.
+  destruct (gi_thr s G t Ht) as (HF & HL & HN). rewrite Hc in HF, HL, HN. simpl in HL, HN.
+  eapply (build_GI s _ t _ k [] (fun _ => False) G Ht Hc); simpl; auto.
+  - constructor; simpl; auto; intros; updsimp; auto.
+  - apply (gi_failed s G).
+  - updsimp. auto.
+  - intros L. eapply linked_ext; [|exact L]. auto.
+  - constructor.
+  - apply (gi_fresh s G).
+  - apply (gi_started s G).
+  - intros r Hr. destruct (gi_live s G r Hr) as (A & B & C). split; [|split]; auto.
+    destruct (Nat.eq_dec (r_thr (roots s r)) t) as [E|E]; updsimp; auto.
+    rewrite E, Hc in C. rewrite E. updsimp. auto.
+  - apply (gi_dead s G).
+  - apply (gi_beyond s G).
+Qed.
+
+(* facts about the root constructor *)
+Lemma push_frame_rel s t wo :
+  (forall n, ~ wo n -> begun (prim_root_push t s) n = begun s n) ->
+  frame_rel s (prim_root_push t s) t (fun _ => False) (fun _ => False) wo.
+Proof.
+  intros H. constructor; simpl; auto; intros; updsimp; auto.
+Qed.
+
+Lemma step_start s t n body k :
+  GI s -> t < nthreads s -> conts s t = Do (AStart n body) :: k ->
+  begun s n = None -> n < nops s -> parent_started s n = true ->
+  GI (set_conts (set_begun (prim_root_push t s) n (nroots s)) t (Opening KS (nroots s) n n false body :: k)).
+Proof.
+  intros G Ht Hc Hb Hn Hp.
+  destruct (gi_thr s G t Ht) as (HF & HL & HN). rewrite Hc in HF, HL, HN. simpl in HL, HN.
+  assert (HFk : Forall (icond s t) k) by (inversion HF; auto).
+  destruct (gi_fresh s G n Hn Hb) as [Hs Hfr].
+  eapply (build_GI s _ t _ k [Opening KS (nroots s) n n false body] (fun m => m = n) G Ht Hc); simpl; auto.
+  - constructor; simpl; auto; intros; updsimp; auto.
+  - intros t2 it m Ht2 Hin _ E ->. rewrite Forall_forall in *.
+    eapply (excl_op_begun s t2 it n (gi_fresh s G) Hb); eauto.
+    destruct (gi_thr s G t2 Ht2) as (HF2 & _). rewrite Forall_forall in HF2. auto.
+  - apply (gi_failed s G).
+  - updsimp. auto.
+  - constructor; [|constructor]. simpl. unfold own; simpl. updsimp. simpl. rewrite Hfr. simpl.
+    repeat split; auto.
+    intros p Hpar. unfold parent_started in Hp. rewrite Hpar in Hp. auto.
+  - intros L. updsimp. constructor. simpl. updsimp. simpl.
+    eapply linked_small; eauto. intros r Hr. simpl. updsimp. auto.
+  - intros r [<-|[]] Hin. pose proof (tail_roots_small s t k HFk _ Hin). lia.
+  - constructor; [simpl; tauto|constructor].
+  - intros m Hm. destruct (Nat.eq_dec m n) as [->|Hne]; updsimp; [discriminate|]. apply (gi_fresh s G m Hm).
+  - apply (gi_started s G).
+  - intros r. destruct (Nat.eq_dec r (nroots s)) as [->|Hne]; updsimp; simpl.
+    + intros _. split; [lia|]. split; auto. updsimp. simpl. auto.
+    + intros Hr. destruct (gi_live s G r Hr) as (A & B & C). split; [lia|]. split; auto.
+      destruct (Nat.eq_dec (r_thr (roots s r)) t) as [E|E]; updsimp; auto.
+      rewrite E, Hc in C. simpl in C. rewrite E. updsimp. simpl. auto.
+  - intros r. destruct (Nat.eq_dec r (nroots s)) as [->|Hne]; updsimp; simpl; [discriminate|apply (gi_dead s G)].
+  - intros r Hr. updsimp. apply (gi_beyond s G). lia.
+Qed.
+
+Lemma push_live s t k' h k :
+  GI s -> t < nthreads s -> conts s t = h :: k -> item_root h = None ->
+  (forall r, In r (pending_roots k) -> In r (pending_roots k')) -> In (nroots s) (pending_roots k') ->
+  forall s', roots s' = upd (roots s) (nroots s) {| r_top := None; r_next := cur s t; r_thr := t; r_live := true |} ->
+  nroots s' = S (nroots s) -> nthreads s' = nthreads s -> conts s' = upd (conts s) t k' ->
+  forall r, r_live (roots s' r) = true ->
+      r < nroots s' /\ r_thr (roots s' r) < nthreads s' /\ In r (pending_roots (conts s' (r_thr (roots s' r)))).
+Proof.
+  intros G Ht Hc Hh Hsub Hin s' Hr Hn Hth Hk r. rewrite Hr, Hn, Hth, Hk.
+  destruct (Nat.eq_dec r (nroots s)) as [->|Hne]; updsimp; simpl.
+  - intros _. split; [lia|]. split; auto. updsimp. auto.
+  - intros Hl. destruct (gi_live s G r Hl) as (A & B & C). split; [lia|]. split; auto.
+    destruct (Nat.eq_dec (r_thr (roots s r)) t) as [E|E]; updsimp; auto.
+    rewrite E, Hc in C. rewrite E. updsimp. apply Hsub.
+    destruct h; simpl in *; try discriminate; auto.
+Qed.
+
+Lemma step_wait s t n m body k :
+  GI s -> t < nthreads s -> conts s t = Do (AWait n m body) :: k ->
+  begun s n = None -> n < nops s -> par s n = None ->
+  GI (set_conts (set_waits (set_begun (prim_root_push t s) n (nroots s)) n m) t
+                (Opening KW (nroots s) n n true body :: k)).
+Proof.
+  intros G Ht Hc Hb Hn Hp.
+  destruct (gi_thr s G t Ht) as (HF & HL & HN). rewrite Hc in HF, HL, HN. simpl in HL, HN.
+  assert (HFk : Forall (icond s t) k) by (inversion HF; auto).
+  destruct (gi_fresh s G n Hn Hb) as [Hs Hfr].
+  eapply (build_GI s _ t _ k [Opening KW (nroots s) n n true body] (fun m => m = n) G Ht Hc); simpl; auto.
+  - constructor; simpl; auto; intros; updsimp; auto.
+  - intros t2 it m' Ht2 Hin _ E ->.
+    eapply (excl_op_begun s t2 it n (gi_fresh s G) Hb); eauto.
+    destruct (gi_thr s G t2 Ht2) as (HF2 & _). rewrite Forall_forall in HF2. auto.
+  - apply (gi_failed s G).
+  - updsimp. auto.
+  - constructor; [|constructor]. simpl. unfold own; simpl. updsimp. simpl. rewrite Hfr. simpl.
+    repeat split; auto.
+  - intros L. updsimp. constructor. simpl. updsimp. simpl.
+    eapply linked_small; eauto. intros r Hr. simpl. updsimp. auto.
+  - intros r [<-|[]] Hin. pose proof (tail_roots_small s t k HFk _ Hin). lia.
+  - constructor; [simpl; tauto|constructor].
+  - intros m' Hm. destruct (Nat.eq_dec m' n) as [->|Hne]; updsimp; [discriminate|]. apply (gi_fresh s G m' Hm).
+  - apply (gi_started s G).
+  - intros r. apply (push_live s t (Opening KW (nroots s) n n true body :: k) _ k G Ht Hc eq_refl
+                       (fun r H => or_intror H) (or_introl eq_refl)
+                       (set_conts (set_waits (set_begun (prim_root_push t s) n (nroots s)) n m) t
+                          (Opening KW (nroots s) n n true body :: k)) eq_refl eq_refl eq_refl eq_refl r).
+  - intros r. destruct (Nat.eq_dec r (nroots s)) as [->|Hne]; updsimp; simpl; [discriminate|apply (gi_dead s G)].
+  - intros r Hr. updsimp. apply (gi_beyond s G). lia.
+Qed.
+
+Lemma step_complete s t n body k :
+  GI s -> t < nthreads s -> conts s t = Do (AComplete n body) :: k ->
+  n < nops s -> started s n = true ->
+  GI (set_conts (prim_root_push t s) t (Opening KC (nroots s) (nops s + nroots s) n false body :: k)).
+Proof.
+  intros G Ht Hc Hn Hs.
+  destruct (gi_thr s G t Ht) as (HF & HL & HN). rewrite Hc in HF, HL, HN. simpl in HL, HN.
+  assert (HFk : Forall (icond s t) k) by (inversion HF; auto).
+  destruct (gi_beyond s G (nroots s) (le_n _)) as [_ Hfr].
+  eapply (build_GI s _ t _ k [Opening KC (nroots s) (nops s + nroots s) n false body] (fun m => False) G Ht Hc); simpl; auto.
+  - constructor; simpl; auto; intros; updsimp; auto.
+  - apply (gi_failed s G).
+  - updsimp. auto.
+  - constructor; [|constructor]. simpl. unfold own; simpl. updsimp. simpl. rewrite Hfr. simpl.
+    repeat split; auto.
+  - intros L. updsimp. constructor. simpl. updsimp. simpl.
+    eapply linked_small; eauto. intros r Hr. simpl. updsimp. auto.
+  - intros r [<-|[]] Hin. pose proof (tail_roots_small s t k HFk _ Hin). lia.
+  - constructor; [simpl; tauto|constructor].
+  - apply (gi_fresh s G).
+  - apply (gi_started s G).
+  - intros r. apply (push_live s t (Opening KC (nroots s) (nops s + nroots s) n false body :: k) _ k G Ht Hc eq_refl
+                       (fun r H => or_intror H) (or_introl eq_refl)
+                       (set_conts (prim_root_push t s) t
+                          (Opening KC (nroots s) (nops s + nroots s) n false body :: k)) eq_refl eq_refl eq_refl eq_refl r).
+  - intros r. destruct (Nat.eq_dec r (nroots s)) as [->|Hne]; updsimp; simpl; [discriminate|apply (gi_dead s G)].
+  - intros r Hr. updsimp. apply (gi_beyond s G). lia.
+Qed.
+
+Lemma step_loop s t body k :
+  GI s -> t < nthreads s -> conts s t = Do (ALoop body) :: k ->
+  GI (set_conts (prim_root_push t s) t (map Do body ++ Closing KL (nroots s) 0 true :: k)).
+Proof.
+  intros G Ht Hc.
+  destruct (gi_thr s G t Ht) as (HF & HL & HN). rewrite Hc in HF, HL, HN. simpl in HL, HN.
+  assert (HFk : Forall (icond s t) k) by (inversion HF; auto).
+  eapply (build_GI s _ t _ k (map Do body ++ [Closing KL (nroots s) 0 true]) (fun m => False) G Ht Hc); simpl; auto.
+  - constructor; simpl; auto; intros; updsimp; auto.
+  - apply (gi_failed s G).
+  - updsimp. rewrite <- app_assoc. auto.
+  - apply Forall_app. split; [apply forall_do|]. constructor; [|constructor].
+    simpl. unfold own; simpl. updsimp. simpl. auto.
+  - intros L. updsimp. rewrite pending_roots_app, pending_roots_do. simpl. constructor. simpl. updsimp. simpl.
+    eapply linked_small; eauto. intros r Hr. simpl. updsimp. auto.
+  - intros r. rewrite pending_roots_app, pending_roots_do. simpl. intros [<-|[]] Hin.
+    pose proof (tail_roots_small s t k HFk _ Hin). lia.
+  - rewrite pending_roots_app, pending_roots_do. simpl. constructor; [simpl; tauto|constructor].
+  - apply (gi_fresh s G).
+  - apply (gi_started s G).
+  - assert (A1 : forall r', In r' (pending_roots k) -> In r' (pending_roots (map Do body ++ Closing KL (nroots s) 0 true :: k))).
+    { intros r' Hr. rewrite pending_roots_app, pending_roots_do. simpl. auto. }
+    assert (A2 : In (nroots s) (pending_roots (map Do body ++ Closing KL (nroots s) 0 true :: k))).
+    { rewrite pending_roots_app, pending_roots_do. simpl. auto. }
+    intros r. apply (push_live s t (map Do body ++ Closing KL (nroots s) 0 true :: k) _ k G Ht Hc eq_refl A1 A2
+                       (set_conts (prim_root_push t s) t (map Do body ++ Closing KL (nroots s) 0 true :: k))
+                       eq_refl eq_refl eq_refl eq_refl r).
+  - intros r. destruct (Nat.eq_dec r (nroots s)) as [->|Hne]; updsimp; simpl; [discriminate|apply (gi_dead s G)].
+  - intros r Hr. updsimp. apply (gi_beyond s G). lia.
+Qed.
+
+(* steps that neither push nor pop keep the live-root bookkeeping *)
+Lemma keep_live s s' t h k k' r0 :
+  GI s -> conts s t = h :: k -> item_root h = Some r0 ->
+  (forall r, r_live (roots s' r) = r_live (roots s r) /\ r_thr (roots s' r) = r_thr (roots s r)) ->
+  nroots s' = nroots s -> nthreads s' = nthreads s -> conts s' = upd (conts s) t k' ->
+  pending_roots k' = r0 :: pending_roots k ->
+  forall r, r_live (roots s' r) = true ->
+      r < nroots s' /\ r_thr (roots s' r) < nthreads s' /\ In r (pending_roots (conts s' (r_thr (roots s' r)))).
+Proof.
+  intros G Hc Hh Hsame Hn Hth Hk Hp r. destruct (Hsame r) as [-> ->]. rewrite Hn, Hth, Hk.
+  intros Hl. destruct (gi_live s G r Hl) as (A & B & C). split; [|split]; auto.
+  destruct (Nat.eq_dec (r_thr (roots s r)) t) as [E|E]; updsimp; auto.
+  rewrite E, Hc in C. rewrite E. updsimp. rewrite Hp.
+  destruct h; simpl in *; try discriminate; inversion Hh; subst; auto.
+Qed.
+
+Lemma step_setparent_gen s s1 t r n body k :
+  GI s -> t < nthreads s -> conts s t = Opening KS r n n false body :: k ->
+  (forall x, x <> n -> frames s1 x = frames s x) ->
+  f_parent (frames s1 n) = par s n -> f_root (frames s1 n) = f_root (frames s n) ->
+  roots s1 = roots s -> nroots s1 = nroots s -> cur s1 = cur s -> begun s1 = begun s ->
+  started s1 = started s -> failed s1 = failed s -> conts s1 = conts s -> nthreads s1 = nthreads s ->
+  par s1 = par s -> nops s1 = nops s ->
+  GI (set_conts s1 t (Opening KS r n n true body :: k)).
+Proof.
+  intros G Ht Hc E1 E2 E2' R1 R2 R3 R4 R5 R6 R7 R8 R9 R10.
+  destruct (gi_thr s G t Ht) as (HF & HL & HN). rewrite Hc in HF, HL, HN. simpl in HL, HN.
+  assert (HFk : Forall (icond s t) k) by (inversion HF; auto).
+  assert (Hh : icond s t (Opening KS r n n false body)) by (inversion HF; auto).
+  destruct Hh as (Hown & Htop & Hfroot & _ & Hn & Hb & Hs & Hpar & Hps).
+  eapply (build_GI s _ t _ k [Opening KS r n n true body] (fun m => False) G Ht Hc); simpl; auto.
+  - constructor; simpl; auto; try congruence; try lia.
+    + intros; rewrite R4, R5; auto.
+    + intros; rewrite R7; updsimp; auto.
+  - rewrite R6. apply (gi_failed s G).
+  - rewrite R7. updsimp. auto.
+  - constructor; [|constructor]. simpl. unfold own; simpl. rewrite R1, R2, R4, R5, R9, R10.
+    rewrite E2, E2'. destruct Hown as (? & ? & ?). repeat split; auto.
+  - intros L. rewrite R3. rewrite (cur_is_head _ _ _ _ HL). constructor. simpl. rewrite R1.
+    eapply linked_ext; [|exact L]. intros; simpl; rewrite R1; auto.
+  - intros r' [<-|[]] Hin. inversion HN; auto.
+  - constructor; [simpl; tauto|constructor].
+  - rewrite R10, R4, R5. intros m Hm Hbm. destruct (gi_fresh s G m Hm Hbm) as [A B]. split; auto.
+    rewrite E1; auto. congruence.
+  - rewrite R5, R9, R10. intros m Hm. destruct (gi_started s G m Hm) as (A & B & C). split; [|split]; auto.
+    rewrite E1; auto. congruence.
+  - intros r'. apply (keep_live s (set_conts s1 t (Opening KS r n n true body :: k)) t _ k
+                        (Opening KS r n n true body :: k) r G Hc eq_refl); simpl; auto.
+    + intros; rewrite R1; auto.
+    + rewrite R7. auto.
+  - rewrite R1. apply (gi_dead s G).
+  - rewrite R1, R2, R10. intros r' Hr. destruct (gi_beyond s G r' Hr) as [A B]. split; auto.
+    rewrite E1; auto. lia.
+Qed.
+
+Lemma step_setparent s t r f n body k :
+  GI s -> t < nthreads s -> conts s t = Opening KS r f n false body :: k ->
+  GI (set_conts (match par s n with
+                 | None => s
+                 | Some p => set_frame s f {| f_parent := Some p; f_root := f_root (frames s f) |}
+                 end) t (Opening KS r f n true body :: k)).
+Proof.
+  intros G Ht Hc.
+  destruct (gi_thr s G t Ht) as (HF & _). rewrite Hc in HF.
+  assert (Hh : icond s t (Opening KS r f n false body)) by (inversion HF; auto).
+  destruct Hh as (_ & _ & _ & -> & _ & _ & _ & Hpar & _).
+  apply (step_setparent_gen s _ t r n body k G Ht Hc); destruct (par s n) eqn:Ep; simpl; auto; intros; updsimp; auto.
+Qed.
+
+(* a step that works on the head bracket's own root r and frame only *)
+Lemma step_inplace s s1 t h knew r k wo :
+  GI s -> t < nthreads s -> conts s t = h :: k -> item_root h = Some r ->
+  pending_roots knew = [r] ->
+  (forall x, x <> r -> roots s1 x = roots s x) ->
+  r_next (roots s1 r) = r_next (roots s r) -> r_thr (roots s1 r) = r_thr (roots s r) ->
+  r_live (roots s1 r) = r_live (roots s r) ->
+  (forall f, item_frame h <> Some f -> frames s1 f = frames s f) ->
+  (forall n, ~ wo n -> begun s1 n = begun s n /\ started s1 n = started s n) ->
+  (forall n, started s n = true -> started s1 n = true) ->
+  (forall t2 it n, t2 < nthreads s -> In it (conts s t2) -> (t2 <> t \/ In it k) ->
+                   item_op it = Some n -> ~ wo n) ->
+  cur s1 = cur s -> nroots s1 = nroots s -> nthreads s1 = nthreads s -> nops s1 = nops s -> par s1 = par s ->
+  conts s1 = conts s -> failed s1 = false ->
+  Forall (icond (set_conts s1 t (knew ++ k)) t) knew ->
+  (forall n, n < nops s1 -> begun s1 n = None -> started s1 n = false /\ frames s1 n = frame0) ->
+  (forall n, started s1 n = true ->
+      n < nops s1 /\ f_parent (frames s1 n) = par s1 n /\ forall p, par s1 n = Some p -> started s1 p = true) ->
+  (forall x, nroots s <= x -> frames s1 (nops s + x) = frame0) ->
+  GI (set_conts s1 t (knew ++ k)).
+Proof.
+  intros G Ht Hc Hr Hp Rx Rn Rt Rl Fx Ox Om Hwo C1 C2 C3 C4 C5 C6 C7 Hnew G1 G2 G3.
+  destruct (gi_thr s G t Ht) as (HF & HL & HN). rewrite Hc in HF, HL, HN.
+  assert (HFk : Forall (icond s t) k) by (inversion HF; auto).
+  assert (Hh : icond s t h) by (inversion HF; auto).
+  assert (Hown : own s t r) by (eapply icond_root_own; eauto).
+  assert (HL' : linked s (cur s t) (r :: pending_roots k)).
+  { destruct h; simpl in *; try discriminate; inversion Hr; subst; auto. }
+  assert (HN' : NoDup (r :: pending_roots k)).
+  { destruct h; simpl in *; try discriminate; inversion Hr; subst; auto. }
+  eapply (build_GI s _ t h k knew wo G Ht Hc); simpl; auto.
+  - constructor; simpl; auto; try lia.
+    + intros x _ Hx. apply Rx. congruence.
+    + intros; rewrite C6; updsimp; auto.
+    + intros; rewrite C1; auto.
+  - rewrite C6. updsimp. auto.
+  - rewrite Hr, Hp, C1. intros L. rewrite (cur_is_head _ _ _ _ HL'). simpl. constructor. simpl. rewrite Rn.
+    eapply linked_ext; [|exact L]. intros x Hx. simpl. rewrite Rx; auto.
+    intros ->. inversion HN'; auto.
+  - rewrite Hp. intros x [<-|[]]. inversion HN'; auto.
+  - rewrite Hp. constructor; [simpl; tauto|constructor].
+  - intros x. rewrite C2, C3, C6. intros Hl.
+    assert (Hl' : r_live (roots s x) = true).
+    { destruct (Nat.eq_dec x r) as [->|Hne]; [rewrite <- Rl; auto|rewrite <- Rx; auto]. }
+    destruct (gi_live s G x Hl') as (A & B & C).
+    assert (Et : r_thr (roots s1 x) = r_thr (roots s x)).
+    { destruct (Nat.eq_dec x r) as [->|Hne]; [auto|rewrite Rx; auto]. }
+    rewrite Et. split; [|split]; auto.
+    destruct (Nat.eq_dec (r_thr (roots s x)) t) as [E|E]; updsimp; auto.
+    rewrite E, Hc in C. rewrite E. updsimp. rewrite pending_roots_app, Hp. simpl.
+    destruct h; simpl in *; try discriminate; inversion Hr; subst; auto.
+  - intros x Hx. destruct (Nat.eq_dec x r) as [->|Hne].
+    + rewrite Rl in Hx. destruct Hown as (_ & _ & ?). congruence.
+    + rewrite (Rx x Hne) in Hx |- *. apply (gi_dead s G); auto.
+  - rewrite C2, C4. intros x Hx. split; [|apply G3; auto].
+    rewrite Rx; [apply (gi_beyond s G); auto|]. destruct Hown. lia.
+Qed.
+
+Lemma head_facts s t h k r :
+  GI s -> t < nthreads s -> conts s t = h :: k -> item_root h = Some r ->
+  icond s t h /\ cur s t = Some r /\ own s t r /\ Forall (icond s t) k /\ ~ In r (pending_roots k).
+Proof.
+  intros G Ht Hc Hr. destruct (gi_thr s G t Ht) as (HF & HL & HN). rewrite Hc in HF, HL, HN.
+  assert (Hh : icond s t h) by (inversion HF; auto).
+  split; auto. split; [|split; [eapply icond_root_own; eauto|split; [inversion HF; auto|]]].
+  - destruct h; simpl in *; try discriminate; inversion Hr; subst; inversion HL; auto.
+  - destruct h; simpl in *; try discriminate; inversion Hr; subst; inversion HN; auto.
+Qed.
+
+Lemma step_copy s t r c n body k :
+  GI s -> t < nthreads s -> conts s t = Opening KC r c n false body :: k ->
+  forall p,
+  GI (set_conts (set_frame s c {| f_parent := p; f_root := f_root (frames s c) |}) t (Opening KC r c n true body :: k)).
+Proof.
+  intros G Ht Hc p.
+  destruct (head_facts s t _ k r G Ht Hc eq_refl) as (Hh & Hcur & Hown & HFk & Hnin).
+  destruct Hh as (_ & Htop & Hfroot & -> & Hn & Hs).
+  change (Opening KC r (nops s + r) n true body :: k) with ([Opening KC r (nops s + r) n true body] ++ k).
+  eapply (step_inplace s _ t _ _ r k (fun _ => False) G Ht Hc eq_refl); simpl; auto.
+  - intros f Hf. updsimp. auto.
+  - apply (gi_failed s G).
+  - constructor; [|constructor]. simpl. unfold own in *. simpl. updsimp. simpl. tauto.
+  - intros m Hm Hb. destruct (gi_fresh s G m Hm Hb). updsimp. auto.
+  - intros m Hm. destruct (gi_started s G m Hm) as (A & B & C). updsimp. auto.
+  - intros x Hx. destruct Hown. updsimp. apply (gi_beyond s G x Hx).
+Qed.
+
+Lemma step_activate_ok s t kd r f n body k :
+  GI s -> t < nthreads s -> conts s t = Opening kd r f n true body :: k -> activate_ok t r f s = true.
+Proof.
+  intros G Ht Hc.
+  destruct (head_facts s t _ k r G Ht Hc eq_refl) as (Hh & Hcur & Hown & HFk & Hnin).
+  destruct Hh as (_ & Htop & Hfroot & _).
+  unfold activate_ok. rewrite Hcur, Htop, Hfroot. simpl. rewrite Nat.eqb_refl. auto.
+Qed.
+
+Lemma other_items_roots s t k r t2 it r2 :
+  GI s -> t < nthreads s -> t2 < nthreads s -> own s t r -> ~ In r (pending_roots k) -> Forall (icond s t) k ->
+  In it (conts s t2) -> (t2 <> t \/ In it k) -> item_root it = Some r2 -> r <> r2 /\ icond s t2 it.
+Proof.
+  intros G Ht Ht2 Hown Hnin HFk Hin Hor E.
+  destruct (gi_thr s G t2 Ht2) as (HF2 & _). rewrite Forall_forall in HF2. pose proof (HF2 it Hin) as Hi.
+  split; auto. intros <-. destruct Hor as [Hne|Hk].
+  - destruct (icond_root_own _ _ _ _ Hi E) as (_ & A & _). destruct Hown as (_ & B & _). congruence.
+  - apply Hnin. eapply item_in_pending; eauto.
+Qed.
+
+Lemma item_op_root it n : item_op it = Some n -> exists r, item_root it = Some r.
+Proof. destruct it; simpl; try discriminate; eauto. Qed.
+
+Lemma step_activate s t kd r f n body k :
+  GI s -> t < nthreads s -> conts s t = Opening kd r f n true body :: k ->
+  GI (set_conts (if Nat.ltb f (nops s) then set_started (prim_activate r f s) f
+                 else set_completed (prim_activate r f s) n) t (map Do body ++ Closing kd r f false :: k)).
+Proof.
+  intros G Ht Hc.
+  destruct (head_facts s t _ k r G Ht Hc eq_refl) as (Hh & Hcur & Hown & HFk & Hnin).
+  pose proof Hh as Hh0.
+  destruct Hh as (_ & Htop & Hfroot & Hkd).
+  replace (map Do body ++ Closing kd r f false :: k) with ((map Do body ++ [Closing kd r f false]) ++ k)
+    by (rewrite <- app_assoc; auto).
+  assert (Hp : pending_roots (map Do body ++ [Closing kd r f false]) = [r]).
+  { rewrite pending_roots_app, pending_roots_do. auto. }
+  assert (Hwo : forall t2 it m, t2 < nthreads s -> In it (conts s t2) -> (t2 <> t \/ In it k) ->
+                   item_op it = Some m -> ~ (m = f /\ f < nops s)).
+  { intros t2 it m Ht2 Hin Hor E [-> Hlt].
+    destruct (item_op_root _ _ E) as (r2 & E2).
+    destruct (other_items_roots s t k r t2 it r2 G Ht Ht2 Hown Hnin HFk Hin Hor E2) as [Hne Hi].
+    assert (Hk : (kd = KS \/ kd = KW) /\ f = n).
+    { destruct kd; [split; [left; auto|tauto]|destruct Hkd as (? & ?); lia|split; [right; auto|tauto]|destruct Hkd]. }
+    destruct Hk as [Hk ->].
+    eapply (excl_op_started s t t2 kd r n n true body it r2); eauto. }
+  destruct (Nat.ltb_spec f (nops s)) as [Hlt|Hge].
+  - (* an operation's own frame: KS or KW *)
+    assert (Hk : (kd = KS \/ kd = KW) /\ f = n /\ begun s n = Some r /\ started s n = false /\
+                 f_parent (frames s n) = par s n /\ (forall p, par s n = Some p -> started s p = true)).
+    { destruct kd; [| | |destruct Hkd].
+      - destruct Hkd as (-> & ? & ? & ? & ? & ?). repeat split; auto.
+      - destruct Hkd as (? & ?). lia.
+      - destruct Hkd as (-> & ? & ? & ? & ? & Hpn & ?). repeat split; auto; try congruence. }
+    destruct Hk as (Hk & -> & Hb & Hs & Hpar & Hps).
+    eapply (step_inplace s _ t _ _ r k (fun m => m = n /\ n < nops s) G Ht Hc eq_refl Hp); simpl; auto.
+    + intros x Hx. updsimp. auto.
+    + updsimp. auto.
+    + updsimp. auto.
+    + updsimp. auto.
+    + intros x Hx. updsimp. auto.
+    + intros m Hm. split; auto. destruct (Nat.eq_dec m n) as [->|Hne]; [exfalso; apply Hm; auto|updsimp; auto].
+    + intros m Hm. destruct (Nat.eq_dec m n) as [->|?]; updsimp; auto.
+    + apply (gi_failed s G).
+    + apply Forall_app. split; [apply forall_do|]. constructor; [|constructor].
+      simpl. unfold own in *. simpl. updsimp. simpl. updsimp. simpl.
+      split; [tauto|]. split; auto. destruct Hk; subst kd; auto.
+    + intros m Hm Hbm. assert (m <> n) by congruence. updsimp. apply (gi_fresh s G m Hm Hbm).
+    + intros m. destruct (Nat.eq_dec m n) as [->|Hne]; updsimp.
+      * intros _. simpl. split; auto. split; auto.
+        intros p Hpp. destruct (Nat.eq_dec p n) as [->|?]; updsimp; auto.
+      * intros Hm. destruct (gi_started s G m Hm) as (A & B & C). split; auto. split; auto.
+        intros p Hpp. destruct (Nat.eq_dec p n) as [->|?]; updsimp; auto.
+    + intros x Hx. updsimp. apply (gi_beyond s G x Hx).
+  - (* a completion bracket's copy *)
+    assert (Hk : kd = KC /\ f = nops s + r /\ n < nops s /\ started s n = true).
+    { destruct kd; [destruct Hkd as (? & ? & ?); lia| |destruct Hkd as (? & ? & ?); lia|destruct Hkd].
+      destruct Hkd as (? & ? & ?). auto. }
+    destruct Hk as (-> & -> & Hn & Hs).
+    eapply (step_inplace s _ t _ _ r k (fun m => False) G Ht Hc eq_refl Hp); simpl; auto.
+    + intros x Hx. updsimp. auto.
+    + updsimp. auto.
+    + updsimp. auto.
+    + updsimp. auto.
+    + intros x Hx. updsimp. auto.
+    + apply (gi_failed s G).
+    + apply Forall_app. split; [apply forall_do|]. constructor; [|constructor].
+      simpl. unfold own in *. simpl. updsimp. simpl. updsimp. simpl. tauto.
+    + intros m Hm Hbm. updsimp. apply (gi_fresh s G m Hm Hbm).
+    + intros m Hm. destruct (gi_started s G m Hm) as (A & B & C). updsimp. auto.
+    + intros x Hx. destruct Hown. updsimp. apply (gi_beyond s G x Hx).
+Qed.
+
+Lemma step_deactivate_ok s t kd r f k :
+  GI s -> t < nthreads s -> conts s t = Closing kd r f false :: k -> closing_kind_strict kd = true ->
+  deactivate_ok t f s = true /\ f_root (frames s f) = Some r.
+Proof.
+  intros G Ht Hc Hk.
+  destruct (head_facts s t _ k r G Ht Hc eq_refl) as (Hh & Hcur & Hown & HFk & Hnin).
+  destruct Hh as (_ & Htop & Hkd).
+  assert (Hfr : f_root (frames s f) = Some r).
+  { destruct kd; try discriminate; simpl in Hkd; tauto. }
+  split; auto. unfold deactivate_ok. rewrite Hfr, Hcur, Htop. simpl. rewrite !Nat.eqb_refl. auto.
+Qed.
+
+Lemma step_deactivate s t kd r f k :
+  GI s -> t < nthreads s -> conts s t = Closing kd r f false :: k -> closing_kind_strict kd = true ->
+  GI (set_conts (prim_deactivate f s) t (Closing kd r f true :: k)).
+Proof.
+  intros G Ht Hc Hk.
+  destruct (step_deactivate_ok s t kd r f k G Ht Hc Hk) as [_ Hfr].
+  destruct (head_facts s t _ k r G Ht Hc eq_refl) as (Hh & Hcur & Hown & HFk & Hnin).
+  destruct Hh as (_ & Htop & Hkd).
+  unfold prim_deactivate. rewrite Hfr.
+  change (Closing kd r f true :: k) with ([Closing kd r f true] ++ k).
+  assert (Hif : item_frame (Closing kd r f false) = Some f) by (destruct kd; try discriminate; auto; simpl in Hkd; tauto).
+  eapply (step_inplace s _ t _ _ r k (fun m => False) G Ht Hc eq_refl); simpl; auto.
+  - intros x Hx. updsimp. auto.
+  - updsimp. auto.
+  - updsimp. auto.
+  - updsimp. auto.
+  - intros x Hx. assert (x <> f) by (intros ->; apply Hx; exact Hif). updsimp. auto.
+  - apply (gi_failed s G).
+  - constructor; [|constructor]. simpl. unfold own in *. simpl. updsimp. simpl. tauto.
+  - intros m Hm Hbm. destruct (gi_fresh s G m Hm Hbm) as [A B].
+    assert (m <> f).
+    { intros ->. destruct kd; try discriminate; [destruct Hkd as (? & ?); lia|]. destruct Hkd as (? & ? & ?). congruence. }
+    updsimp. auto.
+  - intros m Hm. destruct (gi_started s G m Hm) as (A & B & C). split; auto. split; auto.
+    destruct (Nat.eq_dec m f) as [->|?]; updsimp; auto.
+  - intros x Hx. destruct (gi_beyond s G x Hx) as [_ B].
+    assert (nops s + x <> f).
+    { destruct Hown. destruct kd; try discriminate; [destruct Hkd as (? & ?); lia|destruct Hkd as (? & ?); lia]. }
+    updsimp. auto.
+Qed.
+
+Lemma step_ensure_ok s t r f k :
+  GI s -> t < nthreads s -> conts s t = Closing KS r f false :: k -> ensure_ok t r f s = true.
+Proof.
+  intros G Ht Hc.
+  destruct (head_facts s t _ k r G Ht Hc eq_refl) as (Hh & Hcur & Hown & HFk & Hnin).
+  destruct Hh as (_ & Htop & Hkd).
+  unfold ensure_ok. rewrite Hcur, Htop. simpl. rewrite !Nat.eqb_refl. auto.
+Qed.
+
+Lemma step_ensure s t r f k :
+  GI s -> t < nthreads s -> conts s t = Closing KS r f false :: k ->
+  GI (set_conts (prim_ensure r s) t (Closing KS r f true :: k)).
+Proof.
+  intros G Ht Hc.
+  destruct (head_facts s t _ k r G Ht Hc eq_refl) as (Hh & Hcur & Hown & HFk & Hnin).
+  destruct Hh as (_ & Htop & Hkd).
+  change (Closing KS r f true :: k) with ([Closing KS r f true] ++ k).
+  eapply (step_inplace s _ t _ _ r k (fun m => False) G Ht Hc eq_refl); simpl; auto.
+  - intros x Hx. updsimp. auto.
+  - updsimp. auto.
+  - updsimp. auto.
+  - updsimp. auto.
+  - apply (gi_failed s G).
+  - constructor; [|constructor]. simpl. unfold own in *. simpl. updsimp. simpl. tauto.
+  - apply (gi_fresh s G).
+  - apply (gi_started s G).
+  - intros x Hx. apply (gi_beyond s G x Hx).
+Qed.
+
+Lemma step_pop_ok s t kd r f k :
+  GI s -> t < nthreads s -> conts s t = Closing kd r f true :: k -> pop_ok t r s = true.
+Proof.
+  intros G Ht Hc.
+  destruct (head_facts s t _ k r G Ht Hc eq_refl) as (Hh & Hcur & Hown & HFk & Hnin).
+  destruct Hh as (_ & Htop). unfold pop_ok. rewrite Hcur, Htop. simpl. rewrite Nat.eqb_refl. auto.
+Qed.
+
+Lemma step_pop s t kd r f k :
+  GI s -> t < nthreads s -> conts s t = Closing kd r f true :: k ->
+  GI (set_conts (prim_root_pop t r s) t k).
+Proof.
+  intros G Ht Hc.
+  destruct (head_facts s t _ k r G Ht Hc eq_refl) as (Hh & Hcur & Hown & HFk & Hnin).
+  destruct Hh as (_ & Htop).
+  eapply (build_GI s _ t _ k [] (fun m => False) G Ht Hc); simpl; auto.
+  - constructor; simpl; auto; intros; updsimp; auto; congruence.
+  - apply (gi_failed s G).
+  - updsimp. auto.
+  - intros L. updsimp. eapply linked_ext; [|exact L]. intros x Hx. simpl.
+    assert (x <> r) by (intros ->; auto). updsimp. auto.
+  - constructor.
+  - apply (gi_fresh s G).
+  - apply (gi_started s G).
+  - intros x. destruct (Nat.eq_dec x r) as [->|Hne]; updsimp; simpl; [discriminate|].
+    intros Hl. destruct (gi_live s G x Hl) as (A & B & C). split; [|split]; auto.
+    destruct (Nat.eq_dec (r_thr (roots s x)) t) as [E|E]; updsimp; auto.
+    rewrite E, Hc in C. rewrite E. updsimp. simpl in C. destruct C; [congruence|auto].
+  - intros x. destruct (Nat.eq_dec x r) as [->|Hne]; updsimp; simpl; auto. apply (gi_dead s G).
+  - intros x Hx. destruct Hown. assert (x <> r) by lia. updsimp. apply (gi_beyond s G x Hx).
+Qed.
+
+Definition no_assert (evs : list ev) : Prop := Forall (fun e => is_assert e = false) evs.
+
+Lemma step_GI s t s' evs : GI s -> step t s = Some (s', evs) -> GI s' /\ no_assert evs.
+Proof.
+  intros G. unfold step.
+  destruct (Nat.ltb_spec t (nthreads s)) as [Ht|Ht]; simpl; [|discriminate].
+  destruct (conts s t) as [|h k] eqn:Hc; [discriminate|].
+  destruct h as [a|kd r f n prep body|kd r f pop].
+  - destruct a as [n body|n body|n m body|body|tag].
+    + destruct (begun s n) eqn:Hb; [discriminate|].
+      destruct (Nat.ltb_spec n (nops s)) as [Hn|Hn]; simpl; [|discriminate].
+      destruct (parent_started s n) eqn:Hp; [|discriminate].
+      intros E; inversion E; subst; clear E. split; [|repeat constructor].
+      apply step_start; auto.
+    + destruct (Nat.ltb_spec n (nops s)) as [Hn|Hn]; simpl; [|discriminate].
+      destruct (started s n) eqn:Hs; [|discriminate].
+      intros E; inversion E; subst; clear E. split; [|repeat constructor].
+      apply step_complete; auto.
+    + destruct (begun s n) eqn:Hb; [discriminate|].
+      destruct (Nat.ltb_spec n (nops s)) as [Hn|Hn]; simpl; [|discriminate].
+      destruct (oeqb (par s n) None) eqn:Hp; [|discriminate]. apply oeqb_eq in Hp.
+      intros E; inversion E; subst; clear E. split; [|repeat constructor].
+      apply step_wait; auto.
+    + intros E; inversion E; subst; clear E. split; [|repeat constructor].
+      apply step_loop; auto.
+    + intros E; inversion E; subst; clear E. split; [|repeat constructor].
+      apply step_obs with (tag := tag); auto.
+  - assert (Hh : icond s t (Opening kd r f n prep body)).
+    { destruct (gi_thr s G t Ht) as (HF & _). rewrite Hc in HF. inversion HF; auto. }
+    destruct prep.
+    + rewrite (step_activate_ok s t kd r f n body k G Ht Hc).
+      assert (E0 : forall X : option (st * list ev), match kd with KS | KC | KW | KL => X end = X) by (destruct kd; auto).
+      destruct kd; intros E; inversion E; subst; clear E; (split; [|repeat constructor]);
+        apply (step_activate s t _ r f n body k G Ht Hc).
+    + destruct kd.
+      * intros E; inversion E; subst; clear E. split; [|repeat constructor]. apply step_setparent; auto.
+      * intros E; inversion E; subst; clear E. split; [|repeat constructor]. apply step_copy; auto.
+      * destruct Hh as (_ & _ & _ & _ & _ & _ & _ & Hp & _). discriminate.
+      * destruct Hh as (_ & _ & _ & []).
+  - destruct pop.
+    + rewrite (step_pop_ok s t kd r f k G Ht Hc).
+      assert (E0 : forall X : option (st * list ev), match kd with KS | KC | KW | KL => X end = X) by (destruct kd; auto).
+      destruct kd; intros E; inversion E; subst; clear E; (split; [|repeat constructor]);
+        apply (step_pop s t _ r f k G Ht Hc).
+    + destruct kd.
+      * simpl. rewrite (step_ensure_ok s t r f k G Ht Hc).
+        intros E; inversion E; subst; clear E. split; [|repeat constructor]. apply step_ensure; auto.
+      * simpl. destruct (step_deactivate_ok s t KC r f k G Ht Hc eq_refl) as [-> ->].
+        intros E; inversion E; subst; clear E. split; [|repeat constructor]. apply step_deactivate; auto.
+      * destruct (negb (completed s (waits s f))); [discriminate|].
+        destruct (step_deactivate_ok s t KW r f k G Ht Hc eq_refl) as [-> ->].
+        intros E; inversion E; subst; clear E. split; [|repeat constructor]. apply step_deactivate; auto.
+      * assert (Hh : icond s t (Closing KL r f false)).
+        { destruct (gi_thr s G t Ht) as (HF & _). rewrite Hc in HF. inversion HF; auto. }
+        destruct Hh as (_ & _ & []).
+Qed.
+
+(* ---- the initial state and runs --------------------------------------------------------------- *)
+Lemma init_GI pars progs : GI (init pars progs).
+Proof.
+  constructor; simpl; auto.
+  - intros t Ht. unfold tinv. simpl. rewrite pending_roots_do. split; [apply forall_do|]. split; constructor.
+  - intros; discriminate.
+  - intros; discriminate.
+Qed.
+
+Definition reach (pars : list (option nat)) (progs : list (list act)) (sched : list nat) : conf st ev :=
+  run step sched (init pars progs, []).
+
+Lemma reach_GI pars progs sched :
+  GI (fst (reach pars progs sched)) /\ no_assert (snd (reach pars progs sched)).
+Proof.
+  unfold reach. apply (run_invariant st nat ev step (fun c => GI (fst c) /\ no_assert (snd c))).
+  - intros c t s' evs [G N] E. simpl. destruct (step_GI _ _ _ _ G E) as [G' N']. split; auto.
+    unfold no_assert in *. apply Forall_app. auto.
+  - simpl. split; [apply init_GI|constructor].
+Qed.
+
+Lemma all_nil_spec k n : all_nil k n = true -> forall t, t < n -> k t = [].
+Proof.
+  induction n as [|n IH]; simpl; intros H t Ht; [lia|].
+  destruct (k n) eqn:E; [|discriminate].
+  destruct (Nat.eq_dec t n) as [->|?]; auto. apply IH; auto. lia.
+Qed.
+
+(* T1: no assert of the async-stack code can fire *)
+Theorem no_assert_fires pars progs sched :
+  failed (fst (reach pars progs sched)) = false /\ count is_assert (snd (reach pars progs sched)) = 0.
+Proof.
+  destruct (reach_GI pars progs sched) as [G N]. split; [apply (gi_failed _ G)|].
+  unfold count. induction N; simpl; auto. rewrite H. auto.
+Qed.
+
+(* T2: a thread's chain of roots is exactly the roots of its open brackets, innermost first *)
+Theorem root_chain_is_open_brackets pars progs sched t :
+  let s := fst (reach pars progs sched) in
+  t < nthreads s -> linked s (cur s t) (pending_roots (conts s t)).
+Proof.
+  intros s Ht. destruct (reach_GI pars progs sched) as [G _]. destruct (gi_thr _ G t Ht) as (_ & L & _). exact L.
+Qed.
+
+Theorem roots_restored pars progs sched :
+  let s := fst (reach pars progs sched) in
+  quiescent s = true ->
+  (forall t, t < nthreads s -> cur s t = None) /\
+  (forall r, r_live (roots s r) = false /\ r_top (roots s r) = None).
+Proof.
+  intros s Q. destruct (reach_GI pars progs sched) as [G _]. fold s in G.
+  pose proof (all_nil_spec _ _ Q) as Hnil.
+  split.
+  - intros t Ht. destruct (gi_thr _ G t Ht) as (_ & L & _). rewrite (Hnil t Ht) in L. inversion L; auto.
+  - intros r. assert (Hd : r_live (roots s r) = false).
+    { destruct (r_live (roots s r)) eqn:E; auto. destruct (gi_live _ G r E) as (_ & B & C).
+      rewrite (Hnil _ B) in C. destruct C. }
+    split; auto. apply (gi_dead _ G); auto.
+Qed.
+
+(* ---- balance: activations and deactivations per (root, frame) -------------------------------- *)
+Definition active (s : st) (r f : nat) : nat := if oeqb (r_top (roots s r)) (Some f) then 1 else 0.
+
+Lemma oeqb_refl a : oeqb a a = true.
+Proof. apply oeqb_eq. auto. Qed.
+Lemma oeqb_neq a b : a <> b -> oeqb a b = false.
+Proof. intros H. destruct (oeqb a b) eqn:E; auto. apply oeqb_eq in E. congruence. Qed.
+
+Lemma active_same s s' r f : r_top (roots s' r) = r_top (roots s r) -> active s' r f = active s r f.
+Proof. unfold active. intros ->. auto. Qed.
+
+Lemma step_balance s t s' evs :
+  GI s -> step t s = Some (s', evs) ->
+  forall r f, count (is_act r f) evs + active s r f = count (is_deact r f) evs + active s' r f.
+Proof.
+  intros G E r0 f0.
+  assert (Hpush : forall s2, roots s2 = roots (prim_root_push t s) -> active s r0 f0 = active s2 r0 f0).
+  { intros s2 Hs2. symmetry. apply active_same. rewrite Hs2. simpl. destruct (Nat.eq_dec r0 (nroots s)) as [->|?]; updsimp; auto.
+    simpl. destruct (gi_beyond s G (nroots s) (le_n _)) as [-> _]. auto. }
+  revert E. unfold step.
+  destruct (Nat.ltb_spec t (nthreads s)) as [Ht|Ht]; simpl; [|discriminate].
+  destruct (conts s t) as [|h k] eqn:Hc; [discriminate|].
+  destruct h as [a|kd r f n prep body|kd r f pop].
+  - destruct a as [n body|n body|n m body|body|tag].
+    + destruct (begun s n); [discriminate|]. destruct (_ && _); [|discriminate].
+      intros E; inversion E; subst; clear E. unfold count; simpl. apply Hpush; reflexivity.
+    + destruct (_ && _); [|discriminate].
+      intros E; inversion E; subst; clear E. unfold count; simpl. apply Hpush; reflexivity.
+    + destruct (begun s n); [discriminate|]. destruct (_ && _); [|discriminate].
+      intros E; inversion E; subst; clear E. unfold count; simpl. apply Hpush; reflexivity.
+    + intros E; inversion E; subst; clear E. unfold count; simpl. apply Hpush; reflexivity.
+    + intros E; inversion E; subst; clear E. unfold count; simpl. auto.
+  - destruct prep.
+    + pose proof (step_activate_ok s t kd r f n body k G Ht Hc) as Hok. rewrite Hok.
+      unfold activate_ok in Hok. apply andb_prop in Hok. destruct Hok as [Hok _]. apply andb_prop in Hok.
+      destruct Hok as [_ Htop]. apply oeqb_eq in Htop.
+      assert (Hres : forall s2, r_top (roots s2 r) = Some f ->
+                 (forall x, x <> r -> r_top (roots s2 x) = r_top (roots s x)) ->
+                 count (is_act r0 f0) [EActivate r f] + active s r0 f0 =
+                 count (is_deact r0 f0) [EActivate r f] + active s2 r0 f0).
+      { intros s2 H1 H2. unfold count, active. simpl.
+        destruct (Nat.eq_dec r0 r) as [->|Hr].
+        - rewrite Htop, H1. rewrite Nat.eqb_refl. simpl.
+          destruct (Nat.eq_dec f0 f) as [->|Hf]; [rewrite !Nat.eqb_refl; auto|].
+          destruct (Nat.eqb_spec f0 f); [congruence|]. destruct (Nat.eqb_spec f f0); [congruence|]. auto.
+        - rewrite H2 by auto. destruct (Nat.eqb_spec r0 r); [congruence|]. simpl. auto. }
+      assert (E0 : forall X : option (st * list ev), match kd with KS | KC | KW | KL => X end = X) by (destruct kd; auto).
+      destruct kd; intros E; inversion E; subst; clear E; apply Hres;
+        try (destruct (f <? nops s); simpl; updsimp; auto);
+        try (intros x Hx; destruct (f <? nops s); simpl; updsimp; auto).
+    + destruct kd; try (destruct (par s n)); intros E; inversion E; subst; clear E; unfold count; simpl; auto.
+  - destruct (gi_thr s G t Ht) as (HF & _). rewrite Hc in HF.
+    assert (Hh : icond s t (Closing kd r f pop)) by (inversion HF; auto).
+    destruct pop.
+    + rewrite (step_pop_ok s t kd r f k G Ht Hc).
+      assert (Hres : count (is_act r0 f0) [ERootPop r (r_next (roots s r))] + active s r0 f0 =
+                     count (is_deact r0 f0) [ERootPop r (r_next (roots s r))] +
+                     active (set_conts (prim_root_pop t r s) t k) r0 f0).
+      { unfold count; simpl. symmetry. apply active_same. simpl.
+        destruct (Nat.eq_dec r0 r) as [->|?]; updsimp; auto. }
+      destruct kd; intros E; inversion E; subst; clear E; exact Hres.
+    + destruct Hh as (_ & Htop & Hkd).
+      assert (Hres : forall s2 e, r_top (roots s2 r) = None ->
+                 (forall x, x <> r -> r_top (roots s2 x) = r_top (roots s x)) ->
+                 is_act r0 f0 e = false -> is_deact r0 f0 e = (Nat.eqb r0 r && Nat.eqb f0 f) ->
+                 count (is_act r0 f0) [e] + active s r0 f0 = count (is_deact r0 f0) [e] + active s2 r0 f0).
+      { intros s2 e H1 H2 H3 H4. unfold count, active. simpl. rewrite H3, H4.
+        destruct (Nat.eq_dec r0 r) as [->|Hr].
+        - rewrite Htop, H1. rewrite Nat.eqb_refl. simpl.
+          destruct (Nat.eq_dec f0 f) as [->|Hf]; [rewrite !Nat.eqb_refl; auto|].
+          destruct (Nat.eqb_spec f0 f); [congruence|]. destruct (Nat.eqb_spec f f0); [congruence|]. auto.
+        - rewrite H2 by auto. destruct (Nat.eqb_spec r0 r); [congruence|]. simpl. auto. }
+      destruct kd.
+      * simpl. rewrite (step_ensure_ok s t r f k G Ht Hc).
+        intros E; inversion E; subst; clear E. apply Hres; simpl; updsimp; auto.
+        -- intros x Hx. updsimp. auto.
+        -- rewrite Htop. auto.
+      * simpl. destruct (step_deactivate_ok s t KC r f k G Ht Hc eq_refl) as [Hd Hfr]. rewrite Hd, Hfr.
+        intros E; inversion E; subst; clear E. unfold prim_deactivate. rewrite Hfr.
+        apply Hres; simpl; updsimp; auto. intros x Hx. updsimp. auto.
+      * destruct (negb (completed s (waits s f))); [discriminate|].
+        destruct (step_deactivate_ok s t KW r f k G Ht Hc eq_refl) as [Hd Hfr]. rewrite Hd, Hfr.
+        intros E; inversion E; subst; clear E. unfold prim_deactivate. rewrite Hfr.
+        apply Hres; simpl; updsimp; auto. intros x Hx. updsimp. auto.
+      * destruct Hkd.
+Qed.
+
+Lemma count_app p a b : count p (a ++ b) = count p a + count p b.
+Proof. unfold count. rewrite filter_app, app_length. auto. Qed.
+
+(* T3: at any time, per (root, frame): activations = deactivations + (1 if the frame is the root's top now).
+   A frame is deactivated only on the root (hence by the thread) that activated it, and not more often. *)
+Theorem balanced pars progs sched r f :
+  let c := reach pars progs sched in
+  count (is_act r f) (snd c) = count (is_deact r f) (snd c) + active (fst c) r f.
+Proof.
+  unfold reach.
+  apply (run_invariant st nat ev step
+           (fun c => GI (fst c) /\ count (is_act r f) (snd c) = count (is_deact r f) (snd c) + active (fst c) r f)).
+  - intros c t s' evs [G B] E. simpl. destruct (step_GI _ _ _ _ G E) as [G' _]. split; auto.
+    rewrite !count_app. pose proof (step_balance _ _ _ _ G E r f). lia.
+  - simpl. split; [apply init_GI|]. reflexivity.
+Qed.
+
+Theorem balanced_at_quiescence pars progs sched :
+  let c := reach pars progs sched in
+  quiescent (fst c) = true ->
+  forall r f, count (is_act r f) (snd c) = count (is_deact r f) (snd c).
+Proof.
+  intros c Q r f. subst c. rewrite (balanced pars progs sched r f).
+  destruct (roots_restored pars progs sched Q) as [_ H]. destruct (H r) as [_ Ht].
+  unfold active. rewrite Ht. simpl. lia.
+Qed.
+
+(* ---- the parent chain ---------------------------------------------------------------------------- *)
+Lemma step_params s t s' evs : step t s = Some (s', evs) ->
+  par s' = par s /\ nops s' = nops s /\ nthreads s' = nthreads s.
+Proof.
+  unfold step. destruct (negb (t <? nthreads s)); [discriminate|].
+  destruct (conts s t) as [|h k]; [discriminate|].
+  destruct h as [a|kd r f n prep body|kd r f pop].
+  - destruct a as [n body|n body|n m body|body|tag];
+      repeat match goal with |- context [match ?x with _ => _ end] => destruct x end;
+      try discriminate; intros E; inversion E; subst; simpl; auto.
+  - destruct prep; destruct kd;
+      repeat match goal with |- context [match ?x with _ => _ end] => destruct x end;
+      try discriminate; intros E; inversion E; subst; simpl; auto.
+  - destruct pop; destruct kd; simpl;
+      repeat match goal with |- context [match ?x with _ => _ end] => destruct x eqn:? end;
+      try discriminate; intros E; inversion E; subst; simpl; auto;
+      unfold prim_deactivate; repeat match goal with |- context [match ?x with _ => _ end] => destruct x end; simpl; auto.
+Qed.
+
+Definition par_ok (pars : list (option nat)) : Prop :=
+  forall n p, nth n pars None = Some p -> p < n.
+
+Lemma reach_params pars progs sched :
+  let s := fst (reach pars progs sched) in
+  par s = (fun n => nth n pars None) /\ nops s = length pars /\ nthreads s = length progs.
+Proof.
+  unfold reach.
+  apply (run_invariant_state st nat ev step
+           (fun s => par s = (fun n => nth n pars None) /\ nops s = length pars /\ nthreads s = length progs)).
+  - intros s t s' evs (A & B & C) E. destruct (step_params _ _ _ _ E) as (-> & -> & ->). auto.
+  - simpl. auto.
+Qed.
+
+Lemma chain_anc s : GI s -> (forall n p, par s n = Some p -> p < n) ->
+  forall fuel n, n < fuel -> started s n = true -> chain s fuel n = anc (par s) fuel n.
+Proof.
+  intros G Hok fuel. induction fuel as [|fuel IH]; intros n Hn Hs; [lia|].
+  simpl. destruct (gi_started s G n Hs) as (_ & -> & Hp).
+  destruct (par s n) as [p|] eqn:E; auto.
+  f_equal. apply IH; auto. specialize (Hok n p E). lia.
+Qed.
+
+(* T4: the parent chain of a started operation's frame lists the frames of its ancestors up to the root of
+   the op tree (the frame of the outermost connected operation, or sync_wait's initial frame) *)
+Theorem chain_reaches_root pars progs sched n :
+  par_ok pars ->
+  let s := fst (reach pars progs sched) in
+  started s n = true ->
+  chain s (S n) n = anc (fun m => nth m pars None) (S n) n.
+Proof.
+  intros Hok s Hs. destruct (reach_GI pars progs sched) as [G _]. fold s in G.
+  destruct (reach_params pars progs sched) as (Hp & _). fold s in Hp.
+  rewrite <- Hp. apply chain_anc; auto. rewrite Hp. exact Hok.
+Qed.
+
+(* the temporary frame of a completion bracket gets the parent of the receiver's operation frame: the chain
+   seen while operation n completes is: the copy, then the ancestors of n's parent *)
+Definition copy_ok (pr : nat -> option nat) (e : ev) : Prop :=
+  match e with
+  | ECopy c n p => p = match pr n with None => None | Some d => pr d end
+  | _ => True
+  end.
+
+Lemma step_copy_ok s t s' evs : GI s -> step t s = Some (s', evs) -> Forall (copy_ok (par s)) evs.
+Proof.
+  intros G. unfold step.
+  destruct (Nat.ltb_spec t (nthreads s)) as [Ht|Ht]; simpl; [|discriminate].
+  destruct (conts s t) as [|h k] eqn:Hc; [discriminate|].
+  assert (Hh : icond s t h).
+  { destruct (gi_thr s G t Ht) as (HF & _). rewrite Hc in HF. inversion HF; auto. }
+  destruct h as [a|kd r f n prep body|kd r f pop].
+  - destruct a as [n body|n body|n m body|body|tag];
+      repeat match goal with |- context [match ?x with _ => _ end] => destruct x end;
+      try discriminate; intros E; inversion E; subst; repeat constructor.
+  - destruct prep; destruct kd;
+      repeat match goal with |- context [match ?x with _ => _ end] => destruct x eqn:? end;
+      try discriminate; intros E; inversion E; subst; repeat constructor; simpl; auto.
+    + destruct Hh as (_ & _ & _ & _ & _ & Hs). destruct (gi_started s G n Hs) as (_ & _ & Hp).
+      destruct (gi_started s G n0 (Hp n0 Heqo)) as (_ & -> & _). rewrite Heqo. auto.
+    + rewrite Heqo. auto.
+  - destruct pop; destruct kd; simpl;
+      repeat match goal with |- context [match ?x with _ => _ end] => destruct x eqn:? end;
+      try discriminate; intros E; inversion E; subst; repeat constructor.
+Qed.
+
+Theorem copies_chain_to_grandparent pars progs sched :
+  Forall (copy_ok (fun n => nth n pars None)) (snd (reach pars progs sched)).
+Proof.
+  unfold reach.
+  apply (run_invariant st nat ev step
+     (fun c => GI (fst c) /\ par (fst c) = (fun n => nth n pars None) /\ Forall (copy_ok (fun n => nth n pars None)) (snd c))).
+  - intros c t s' evs (G & P & F) E. simpl. destruct (step_GI _ _ _ _ G E) as [G' _].
+    destruct (step_params _ _ _ _ E) as (-> & _). split; auto. split; auto.
+    apply Forall_app. split; auto. rewrite <- P. eapply step_copy_ok; eauto.
+  - simpl. split; [apply init_GI|]. split; auto.
+Qed.
